@@ -20,6 +20,7 @@ const (
 	VIOLATION Verdict = "VIOLATION"
 	UNDECIDED Verdict = "UNDECIDED" // counts as failure: the rule could not decide
 	KNOWN     Verdict = "KNOWN-FINDING"
+	BROKEN    Verdict = "CHECKER-DEFECT" // the checker itself is unsound/insensitive here (thorough tier); never a VIOLATION of zenodb
 )
 
 // Obligation is one evaluated rule instance.
@@ -204,6 +205,11 @@ func (c *Ctx) finish(verifDir string, start time.Time, seed int, spec *PropSpec,
 		switch o.Verdict {
 		case KNOWN:
 			fmt.Printf("KNOWN-FINDING: property=%s %s %s at %s: %s\n", c.Prop, o.Rule, o.Instance, o.Pos, o.Reason)
+		case BROKEN:
+			fmt.Printf("CHECKER-DEFECT: property=%s %s: %s\n", c.Prop, o.Instance, o.Reason)
+			if code == 0 {
+				code = 2
+			}
 		case VIOLATION, UNDECIDED:
 			n++
 			rp := filepath.Join(verifDir, "replay", fmt.Sprintf("%s-%d.txt", c.Prop, n))
